@@ -4,7 +4,8 @@ CONSTANTS
   MaxLen = 2
   ConstVals = {0, 1, 2, 46}
   ProbeSeq <- MCProbeSeq
-  OpSet = {"Add", "Add3", "Sub", "Sub3", "Neg", "Mul", "Mul3", "MulAcc", "Div", "DivUnchecked", "Inverse", "ToBinary", "FromBinary", "Xor", "Or", "And", "Select", "Lookup2", "IsZero", "Cmp", "AssertIsEqual", "AssertIsDifferent", "AssertIsBoolean", "AssertIsCrumb", "AssertIsLessOrEqual"}
+  OpSet = {"Add", "Add3", "Sub", "Sub3", "Neg", "Mul", "Mul3", "MulAcc", "Div", "DivUnchecked", "Inverse", "ToBinary", "FromBinary", "Xor", "Or", "And", "Select", "Lookup2", "IsZero", "Cmp", "AssertIsEqual", "AssertIsDifferent", "AssertIsBoolean", "AssertIsCrumb", "AssertIsLessOrEqual", "PlonkExpr", "PlonkGate"}
+  Derived = FALSE
   Emit = TRUE
 INVARIANT WellFormed
 CHECK_DEADLOCK FALSE
